@@ -133,9 +133,11 @@ class CACGMM(_ProbabilisticModel):
 
         # log_pdf.shape: *independent, speakers, num_observations
 
-        # first: sum above the speakers
+        # first: sum above the speakers (weighted with the mixture weights)
         # second: sum above time frequency in log domain
-        log_likelihood = np.sum(scipy.special.logsumexp(log_pdf, axis=-2))
+        log_likelihood = np.sum(
+            scipy.special.logsumexp(log_pdf, axis=-2, b=self.weight)
+        )
         return log_likelihood
 
 
